@@ -349,3 +349,68 @@ def long_runs(thorough):
         out.append(("long:lf-in-block-comment-%d" % n, b"/*" + b"\n" * n + b"*/ set a = b | c;"))
         out.append(("long:lf-in-long-string-%d" % n, b'set a = {"' + b"\n\xc3\xa9" * n + b'"} b | c;'))
     return out
+
+
+# ---------------------------------------------------------------------------------------------
+# NESTING DEPTH, POSITION OF THE ERROR IN A LONG FILE, LINE-END CONVENTIONS
+
+def nesting(thorough):
+    out = []
+    depths = (1, 2, 7, 40, 300, 1500) if not thorough else (1, 2, 7, 40, 300, 1500, 6000)
+    for d in depths:
+        o, c = b"(" * d, b")" * d
+        out.append(("nest:parens-%d" % d, b"sub f { set req.http.A = " + o + b"a" + c + b"; }"))
+        out.append(("nest:parens-open-%d" % d, b"sub f { set req.http.A = " + o + b"a" + c[:-1] + b"; }"))
+        out.append(("nest:parens-extra-%d" % d, b"sub f { set req.http.A = " + o + b"a" + c + b"); }"))
+        out.append(("nest:parens-eof-%d" % d, b"sub f { set req.http.A = " + o + b"a"))
+        out.append(("nest:bang-%d" % d, b"sub f { if (" + b"!" * d + b"a) { } }"))
+        out.append(("nest:minus-%d" % d, b"sub f { set var.i = " + b"-" * d + b"1; }"))
+        out.append(("nest:ifexp-%d" % d, b"sub f { set req.http.A = " + b"if(a, " * d + b'"x"' + b', "y")' * d + b"; }"))
+        out.append(("nest:ifexp-cut-%d" % d, b"sub f { set req.http.A = " + b"if(a, " * d + b'"x"' + b', "y")' * (d - 1) + b"; }"))
+        out.append(("nest:blocks-%d" % d, b"sub f " + b"{ " * d + b"esi; " + b"} " * d))
+        out.append(("nest:blocks-open-%d" % d, b"sub f " + b"{ " * d + b"esi; " + b"} " * (d - 1)))
+        out.append(("nest:blocks-extra-%d" % d, b"sub f " + b"{ " * d + b"esi; " + b"} " * (d + 1) + b"x"))
+        out.append(("nest:ifs-%d" % d, b"sub f { " + b"if (a) { " * d + b"esi; " + b"} " * d + b"}"))
+        out.append(("nest:ifs-lines-%d" % d, b"sub f {\n" + b"if (a) {\n" * d + b"esi |;\n" + b"}\n" * d + b"}\n"))
+        out.append(("nest:elsif-chain-%d" % d, b"sub f { if (a) { }" + b" else if (b) { }" * d + b" else { } x }"))
+        out.append(("nest:calls-%d" % d, b"sub f { set req.http.A = " + b"f(" * d + b"a" + b")" * d + b" | b; }"))
+        out.append(("nest:concat-%d" % d, b"sub f { set req.http.A = " + b'"a" b ' * d + b"|; }"))
+        out.append(("nest:switch-cases-%d" % d, b"sub f { switch (a) { " + b'case "x": break; ' * min(d, 300) + b"default: esi; } }"))
+        out.append(("nest:long-strings-%d" % d, b"sub f { set req.http.A = " + b'{"a"} ' * d + b'{"b; }'))
+        out.append(("nest:comments-%d" % d, b"sub f { " + b"/* c */ # d\n" * d + b"set a = b | c; }"))
+    return out
+
+
+def error_positions(rng, files, thorough):
+    """one error-provoking token injected at positions spread over a long valid file, LF and CRLF"""
+    out = []
+    big = sorted(files, key=lambda f: -len(f[1]))[: (4 if thorough else 2)]
+    for path, data in big:
+        lines = data.split(b"\n")
+        n = len(lines)
+        picks = sorted(set([0, 1, n // 2, n - 2, n - 1] + [rng.randrange(n) for _ in range(60 if thorough else 14)]))
+        for conv_name, nl in (("lf", b"\n"), ("crlf", b"\r\n")):
+            for li in picks:
+                for inj in (b" | ", b' "unterminated', b" \xe6\x97\xa5 "):
+                    if not thorough and inj != b" | " and rng.random() < 0.6:
+                        continue
+                    ls = list(lines)
+                    ls[li] = ls[li] + inj
+                    out.append(("errpos:%s:%s@%d/%d" % (conv_name, path, li, n), nl.join(ls)))
+            for cut in (picks if thorough else picks[::3]):
+                out.append(("errpos-trunc:%s:%s@%d" % (conv_name, path, cut), nl.join(lines[:cut])))
+    return out
+
+
+def line_endings(files):
+    """every repository file with CRLF, CR-only and mixed line ends"""
+    out = []
+    for path, data in files:
+        if not data:
+            continue
+        out.append(("eol:crlf:" + path, data.replace(b"\n", b"\r\n")))
+        if len(data) < 3000:
+            out.append(("eol:cr:" + path, data.replace(b"\n", b"\r")))
+            parts = data.split(b"\n")
+            out.append(("eol:mixed:" + path, b"".join(p + (b"\r\n" if i % 2 else b"\n") for i, p in enumerate(parts))))
+    return out
